@@ -1,7 +1,7 @@
 """C09 — upload stream, chunking and transport never change what gets signed."""
 TIE = "corr:merkle+pechecksum+transport"
 TIE_THEOREM = ("Relic.Props.C09.merkle_split_independent / merkle_finish / checksum_even_splits / failover_same_body / "
-               "encoding_choice (models Relic.Model.{Merkle,PEChecksum,Transport} vs signers/apk/merkle.go, "
+               "fault_never_accepted / encoding_choice (models Relic.Model.{Merkle,PEChecksum,Transport} vs signers/apk/merkle.go, "
                "lib/authenticode/checksum.go, cmdline/remotecmd/client.go, lib/compresshttp)")
 RULE = ("merkle: real merkleHasher (hook) at the real 1 MiB block with a recording hash registered as crypto.MD4: every ordered pair "
         "of 13 edge lengths (0,1,2,17,4096,B/2,B-1,B,B+1,2B-1,2B,2B+1,3B+5) as two writes, seeded multi-section scripts, and scripts "
@@ -15,7 +15,15 @@ RULE = ("merkle: real merkleHasher (hook) at the real 1 MiB block with a recordi
         "real doRequest (hook) against httptest servers behind the real compresshttp.Middleware with a scripting RoundTripper: first "
         "k attempts failing (refused / 500 / 503) for k=0..4, a 406 at every position, seeded scripts over 16 outcome kinds x 6 "
         "Accept-Encoding strings x retries {0,1,2,3,5} x 1..3 servers x bodies 0..300 KB, really closed listeners; the server records "
-        "SHA-256 of the decompressed body per attempt. selenc: CompressRequest's Content-Encoding for 21 hand-written + seeded "
+        "SHA-256 of the decompressed body per attempt. xfault: the same loop with the real fileProducer whose reader for a scripted "
+        "attempt fails after k bytes (k = 0, 1, mid, len-1, len; EIO = permanent, io.ErrUnexpectedEOF = temporary) x Accept-Encoding "
+        "{none, identity, gzip, x-snappy-framed, both} x sizes 0..200 KB (thorough: ..1 MB, on the 32/64 KiB buffer and frame edges) "
+        "x single server / fail-over / repeated list, plus seeded scripts mixing faults with the 16 outcome kinds; the handler digests "
+        "request.Body to its end, refuses on a read error and otherwise records length + SHA-256 and answers 2xx: no attempt may be "
+        "answered 2xx for a body that is not the whole file, an attempt whose source faulted is never accepted, and doRequest never "
+        "returns a response for it. xresp: responses whose compressed stream is cut mid-frame / lacks the gzip trailer / has a bad "
+        "checksum must give the caller a read error, never a short body. xraw: hand-made request bodies (gzip without trailer, cut "
+        "streams, bad CRC, Content-Length larger than the bytes sent) against the real Middleware must never be answered 2xx. selenc: CompressRequest's Content-Encoding for 21 hand-written + seeded "
         "Accept-Encoding strings. Oracles without model: 13 digester inputs (PE, PE+page hashes, DLL, PowerShell, CAB, JAR, APK, XAP, "
         "MSI-tar, generated JAR/PS) x 6 read-fragmentation schedules (1-byte, 2-byte, primes, page-straddling, seeded, data+EOF) must "
         "equal the unfragmented digest; transformers re-read after an abandoned partial read; the same JAR digested 16 times in-process; "
@@ -30,6 +38,8 @@ ASSUMPTIONS = ["block size B > 0 (the Go constant is 2^20); with B = 0 the Go lo
                "transport model: one script entry per call of http.Client.Do; httperror.Temporary is modelled for HTTP statuses "
                "(500,502,503,504,507) and as a boolean for transport errors; GetReader/Close are atomic (no goroutine interleaving)",
                "gzip/snappy codecs: only dec(comp b) = b is assumed (library code, exercised by the tie, not proved)",
+               "source faults: net/http returns the error of Request.Body.Read from RoundTrip, leaves the chunked body unterminated and does "
+               "not retry the request (Go runtime; exercised by the xfault tie); the compressors have no write error while the pipe is read",
                "strings.TrimSpace restricted to ASCII white space (generator stays in ASCII)",
                "io.Copy reads a file in 32 KiB pieces (Go runtime; used only to aim FixPEChecksum cases)"]
 TRUSTED = ["models Relic.Model.Merkle / PEChecksum / Transport are hand-written; tied to the Go code by differential execution on every run",
@@ -54,7 +64,7 @@ def nontrivial(op, mres, tag):
         return f[3] != "-"
     if k == "fixpehex":
         return mres.startswith("ok")
-    if k in ("xport", "xdown"):
+    if k in ("xport", "xdown", "xfault"):
         return "attempts=0" not in tag
     return True
 
@@ -71,6 +81,21 @@ def branch(op, mres, tag):
     if k in ("xport", "xdown"):
         fin = r[-1].split(":")
         return "%s:%s:%s" % (k, ":".join(fin[:2]) if fin[0] != "resp" else "resp", tag.split(" ")[-1] if tag else "")
+    if k == "xfault":
+        fin = r[-1].split(":")
+        sc = f[5].split(",")
+        size = int(f[6])
+        atts = [] if r[1] == "-" else r[1].split(",")
+        cls = set()
+        for i, a in enumerate(atts):
+            e = sc[i] if i < len(sc) else "200"
+            if e.startswith("f"):
+                kk = int(e[1:-1])
+                kc = "0" if kk == 0 else "1" if kk == 1 else "len" if kk >= size else "len-1" if kk == size - 1 else "mid"
+                cls.add("%s@%s%s" % ({"-": "plain", "gzip": "gzip", "x-snappy-framed": "snappy"}.get(a.split(":")[1], "?"), kc, e[-1]))
+        return "xfault:%s:%s" % (fin[0] if fin[0] != "resp" else "resp", "+".join(sorted(cls)) or "nofault")
+    if k in ("xresp", "xraw"):
+        return "%s:%s:%s" % (k, f[2], f[3])
     if k == "selenc":
         return "selenc:" + (r[1] if len(r) > 1 else "?")
     if k == "frag":
@@ -135,6 +160,37 @@ def predicate(op, il, mres, tag):
                 return ("Relic.Props.C09.failover_same_body", "response body round-trips", parts[-1])
             if parts[-1].startswith("resp:") and atts and atts[-1].split(":")[2] != "full":
                 return ("Relic.Props.C09.failover_same_body", "successful attempt carried the whole file", atts[-1])
+    elif k == "xfault":
+        if il.startswith("ok"):
+            parts = il.split()
+            atts = [] if parts[1] == "-" else parts[1].split(",")
+            sc = [] if f[5] == "-" else f[5].split(",")
+            for i, a in enumerate(atts):
+                body = a.split(":")[2]
+                e = sc[i] if i < len(sc) else "200"
+                if body not in ("full", "x"):
+                    return ("Relic.Props.C09.fault_never_accepted", "every body a server accepts (2xx) is the whole file",
+                            "attempt %d (%s, event %s) was answered 2xx for a truncated body: (length:sha256/32) = %s" % (i, a, e, body))
+                if e.startswith("f") and body != "x":
+                    return ("Relic.Props.C09.fault_never_accepted", "a source fault makes the attempt fail",
+                            "attempt %d (%s): the source failed (%s) yet the server got a cleanly ended body and accepted it" % (i, a, e))
+            if "BADRESP" in parts[-1]:
+                return ("Relic.Props.C09.failover_same_body", "response body round-trips", parts[-1])
+            if parts[-1].startswith("resp:") and atts:
+                e = sc[len(atts) - 1] if len(atts) - 1 < len(sc) else "200"
+                if e.startswith("f"):
+                    return ("Relic.Props.C09.fault_never_accepted", "doRequest returns an error when the last attempt's source faulted",
+                            "returned %s although the source of the last attempt failed (%s)" % (parts[-1], e))
+                if atts[-1].split(":")[2] != "full":
+                    return ("Relic.Props.C09.failover_same_body", "successful attempt carried the whole file", atts[-1])
+    elif k == "xresp":
+        if il != "ok error":
+            return ("Relic.Props.C09.failover_same_body (response side; implementation oracle)", "ok error",
+                    "a damaged compressed response was handed to the caller without a read error: " + il)
+    elif k == "xraw":
+        if il != "ok refused":
+            return ("Relic.Props.C09.fault_never_accepted (server side; implementation oracle)", "ok refused",
+                    "the server answered 2xx for a request body that is not a complete stream: " + il)
     elif k in ("frag", "transform", "xlinger"):
         if il != "ok same":
             thm = {"frag": "pe_reader_split_independent (unproved; implementation oracle)",
